@@ -14,6 +14,11 @@ def sensitivity(pattern=""):
             seeded[pth] = d
             patches.append(pth)
     results = []
+    shard = os.environ.get("SENS_SHARD")  # "i/n": this process takes every n-th change (run n of them in parallel)
+    if shard:
+        i, n = map(int, shard.split("/"))
+        patches = patches[i::n]
+        os.environ["VERIF_REPLAY_TAG"] = f"-shard{i}"
     for patch in patches:
         if patch in seeded:
             name = "seeded-" + seeded[patch]["id"]
